@@ -10,6 +10,8 @@ import Hgxv.Proofs.C06LinkT
 import Hgxv.Proofs.C06LinkM
 import Hgxv.Proofs.C06Text
 import Hgxv.Proofs.C06Str
+import Hgxv.Proofs.C06Json
+import Hgxv.Proofs.C06HgrText
 /-! # C06 — save then load returns the same hypergraph, for every type and format
 
 Property theorems about the model `Hgxv/Model/C06.lean` (+ `C06Hif.lean`).  A `Content κ` is what the
@@ -909,3 +911,192 @@ theorem C06_str_raw_witness (c : Nat) (h : 127 ≤ c) : c ∈ C06.Str.encodeRaw 
   simp [C06.Str.encodeRaw, C06.Str.encCharRaw, hs, h32]
 
 example : C06.Str.encodeRaw [55296] = [34, 55296, 34] := by decide
+
+/-! ## Extension round: the character level of the `.json` file (`Model/C06Json.lean`)
+
+Numbers, whole JSON values as `json.dump(..., separators=(",", ":"))` writes them, the file as `[` LF, one record per
+line (`,` LF between two), LF `]`, and the file read back line by line.  Floats are a parameter (`repr`, contract:
+printable ASCII text); the reader of ONE record's text is a parameter `dec` whose contract `dec (enc r) = some r` is
+demanded only for the records the saved object has. -/
+open C06.Json
+
+/-- integers of every size: `int(str(i)) = i` through the JSON number grammar `-?(0|[1-9][0-9]*)` -/
+theorem C06_num_roundtrip (i : Int) : C06.Num.decInt (C06.Num.encInt i) = some i :=
+  C06.Num.decInt_encInt i
+
+/-- distinct integers have distinct texts (no two values share a number token) -/
+theorem C06_num_injective (i j : Int) (h : C06.Num.encInt i = C06.Num.encInt j) : i = j := by
+  have hi := C06.Num.decInt_encInt i
+  rw [h, C06.Num.decInt_encInt j] at hi
+  exact (Option.some.inj hi).symm
+
+/-- the text of an integer is `-` and decimal digits only -/
+theorem C06_num_chars (i : Int) : ∀ u ∈ C06.Num.encInt i, u = 45 ∨ (48 ≤ u ∧ u ≤ 57) :=
+  C06.Num.encInt_chars i
+
+example : C06.Num.encInt (-18446744073709551616) =
+    [45, 49, 56, 52, 52, 54, 55, 52, 52, 48, 55, 51, 55, 48, 57, 53, 53, 49, 54, 49, 54] := by
+  show C06.Num.encInt (Int.negSucc 18446744073709551615) = _
+  simp [C06.Num.encInt, C06.Num.natDigits]
+example : C06.Num.decInt [45, 48] = some 0 ∧ C06.Num.encInt 0 = [48] := by
+  refine ⟨by decide, ?_⟩
+  show C06.Num.natDigits 0 = _
+  simp [C06.Num.natDigits]
+
+/-- the reader is strict (JSON grammar): ``, `-`, `+1`, `01`, `-01`, `1a`, `--1` are no integers -/
+theorem C06_num_strict_witness :
+    C06.Num.decInt [] = none ∧ C06.Num.decInt [45] = none ∧ C06.Num.decInt [43, 49] = none ∧
+    C06.Num.decInt [48, 49] = none ∧ C06.Num.decInt [45, 48, 49] = none ∧ C06.Num.decInt [49, 97] = none ∧
+    C06.Num.decInt [45, 45, 49] = none := by decide
+
+/-- every character `json.dump` writes for a record - any JSON value: nested arrays / objects, strings with arbitrary
+    code points as keys and values, integers of any size, floats whose `repr` is printable - is printable ASCII -/
+theorem C06_json_record_ascii {F : Type} (repr : F → List Nat) (hr : ∀ f, ∀ u ∈ repr f, 32 ≤ u ∧ u ≤ 126)
+    (j : J F) : ∀ u ∈ J.emit repr j, 32 ≤ u ∧ u ≤ 126 :=
+  emit_pr repr hr j
+
+/-- hence the writer never emits a raw newline (nor CR, NUL, a `splitlines` separator) inside a record -/
+theorem C06_json_record_no_newline {F : Type} (repr : F → List Nat) (hr : ∀ f, ∀ u ∈ repr f, 32 ≤ u ∧ u ≤ 126)
+    (j : J F) : 10 ∉ J.emit repr j ∧ 13 ∉ J.emit repr j ∧ 0 ∉ J.emit repr j := by
+  refine ⟨fun h => ?_, fun h => ?_, fun h => ?_⟩ <;> have := emit_pr repr hr j _ h <;> unfold Pr at this <;> omega
+
+/-- `{"type":"node","idx":"a\n","metadata":{"k":[null,true,-12]}}` -/
+example : J.emit (Empty.elim : Empty → List Nat)
+    (.obj (.cons [116] (.str [97, 10]) (.cons [107] (.arr (.cons .null (.cons (.bool true) (.cons (.int (-12)) .nil)))) .nil))) =
+    [123, 34, 116, 34, 58, 34, 97, 92, 110, 34, 44, 34, 107, 34, 58, 91, 110, 117, 108, 108, 44, 116, 114, 117, 101,
+     44, 45, 49, 50, 93, 125] := by
+  have h : C06.Num.encInt (-12) = [45, 49, 50] := by
+    show C06.Num.encInt (Int.negSucc 11) = _
+    simp [C06.Num.encInt, C06.Num.natDigits]
+  simp only [J.emit, JL.emitTail, JO.emitTail, h]
+  decide
+
+/-- the characters of the file `write_item` produces (the pieces of `writeText` rendered) for a non-empty record list -/
+theorem C06_json_file_chars {α : Type} (enc : α → List Nat) (r : α) (rs : List α) :
+    render enc (writeText (r :: rs)) = fileText enc (r :: rs) :=
+  render_writeText enc r rs
+
+/-- the line structure: when no record's text holds a LF, the file's lines are `[`, then ONE record per line (each but
+    the last followed by `,`), then `]` - no record is split, whatever the number of records -/
+theorem C06_json_file_lines {α : Type} (enc : α → List Nat) (r : α) (rs : List α)
+    (hn : ∀ x ∈ r :: rs, 10 ∉ enc x) :
+    splitLF (render enc (writeText (r :: rs))) = [91] :: recLines enc r rs := by
+  rw [render_writeText]; exact splitLF_fileText enc r rs hn
+
+/-- number of lines of the file: one per record, `[` and `]` (a file of n ≥ 1 records has n + 2 lines, n + 1 LF) -/
+theorem C06_json_file_line_count {α : Type} (enc : α → List Nat) (r : α) (rs : List α)
+    (hn : ∀ x ∈ r :: rs, 10 ∉ enc x) :
+    (splitLF (render enc (writeText (r :: rs)))).length = (r :: rs).length + 2 := by
+  rw [C06_json_file_lines enc r rs hn]
+  have : ∀ (r : α) (rs : List α), (recLines enc r rs).length = rs.length + 2 := by
+    intro r rs
+    induction rs generalizing r with
+    | nil => rfl
+    | cons r' rs ih => simp [recLines, ih r']
+  simp [this r rs]
+
+/-- reading the file line by line gives back the written record list -/
+theorem C06_json_file_read_write {α : Type} (enc : α → List Nat) (dec : List Nat → Option α) (r : α) (rs : List α)
+    (h0 : enc r ≠ []) (hn : ∀ x ∈ r :: rs, 10 ∉ enc x) (hd : ∀ x ∈ r :: rs, dec (enc x) = some x) :
+    readFile dec (render enc (writeText (r :: rs))) = some (r :: rs) := by
+  rw [render_writeText]; exact readFile_fileText enc dec r rs h0 hn hd
+
+/-- no record: the file is `[` LF LF `]` and is read as the empty array -/
+theorem C06_json_file_empty {α : Type} (enc : α → List Nat) (dec : List Nat → Option α) :
+    render enc (writeText ([] : List α)) = [91, 10, 10, 93] ∧ readFile dec (render enc (writeText ([] : List α))) = some [] := by
+  rw [render_writeText_nil]; exact ⟨rfl, readFile_fileText_nil enc dec⟩
+
+/-- why the first record's text must not be empty: a lone record with the empty text IS the empty array's file -/
+example : readFile some (render id (writeText [([] : List Nat)])) = some [] := by decide
+
+example : readFile some (render id (writeText [[123, 125], [49], [91, 93]])) = some [[123, 125], [49], [91, 93]] ∧
+    render id (writeText [[123, 125], [49]]) = [91, 10, 123, 125, 44, 10, 49, 10, 93] := by decide
+
+/-- why the record text must hold no LF: a record `1` LF `2` would be read as two lines and the file rejected -/
+theorem C06_json_file_split_witness :
+    readFile some (render id (writeText [[49, 10, 50]])) = none ∧
+    splitLF (render id (writeText [[49, 10, 50]])) = [[91], [49], [50], [93]] := by decide
+
+/-- END TO END on characters, one class: records written as JSON values (`toJ`, floats through a printable `repr`),
+    read by a record reader that inverts the writer ON THE RECORDS OF THIS OBJECT: loading the saved characters is the
+    record-level `load (save c)`.  No hypothesis about newlines: `C06_json_record_no_newline` discharges it. -/
+theorem C06_json_file_load_save {κ : Type} [DecidableEq κ] [Kind κ] {F : Type} (repr : F → List Nat)
+    (hr : ∀ f, ∀ u ∈ repr f, 32 ≤ u ∧ u ≤ 126) (hr0 : ∀ f, repr f ≠ []) (toJ : Record → J F) (dec : List Nat → Option Record)
+    (c : Content κ) (hd : ∀ x ∈ save c, dec (J.emit repr (toJ x)) = some x) :
+    loadFile (κ := κ) dec (saveFile (fun x => J.emit repr (toJ x)) c) = load (save c) := by
+  unfold loadFile saveFile saveText
+  have hs : save c = .header (Kind.ty κ) c.weighted c.hmeta ::
+      (c.nodes.map saveNode ++ c.edges.map (saveEdge c.weighted)) := rfl
+  rw [hs] at hd ⊢
+  rw [C06_json_file_read_write _ dec _ _ (emit_ne_nil repr hr0 _)
+    (fun x _ => (C06_json_record_no_newline repr hr (toJ x)).1) hd]
+  rfl
+
+/-- the property's sentence on the characters of the `.json` file: same content modulo the reserved keys -/
+theorem C06_json_file_roundtrip {κ : Type} [DecidableEq κ] [Kind κ] [LawfulKind κ] {F : Type} (repr : F → List Nat)
+    (hr : ∀ f, ∀ u ∈ repr f, 32 ≤ u ∧ u ≤ 126) (hr0 : ∀ f, repr f ≠ []) (toJ : Record → J F) (dec : List Nat → Option Record)
+    (c : Content κ) (h : WF c) (hd : ∀ x ∈ save c, dec (J.emit repr (toJ x)) = some x) :
+    (loadFile (κ := κ) dec (saveFile (fun x => J.emit repr (toJ x)) c)).map Content.erased = some c.erased := by
+  rw [C06_json_file_load_save repr hr hr0 toJ dec c hd]; exact C06_json_roundtrip c h
+
+/-- the same through the type dispatch (all four classes): same type, same content -/
+theorem C06_json_file_roundtrip_any {F : Type} (repr : F → List Nat)
+    (hr : ∀ f, ∀ u ∈ repr f, 32 ≤ u ∧ u ≤ 126) (hr0 : ∀ f, repr f ≠ []) (toJ : Record → J F) (dec : List Nat → Option Record)
+    (a : AnyContent) (hd : ∀ x ∈ saveAny a, dec (J.emit repr (toJ x)) = some x) :
+    loadFileAny dec (saveFileAny (fun x => J.emit repr (toJ x)) a) = loadAny (saveAny a) := by
+  unfold loadFileAny saveFileAny saveTextAny
+  have hs : ∃ r rs, saveAny a = r :: rs := by cases a <;> exact ⟨_, _, rfl⟩
+  obtain ⟨r, rs, hs⟩ := hs
+  rw [hs] at hd ⊢
+  rw [C06_json_file_read_write _ dec _ _ (emit_ne_nil repr hr0 _)
+    (fun x _ => (C06_json_record_no_newline repr hr (toJ x)).1) hd]
+  rfl
+
+/-- non-vacuity of the reader contract: the records of `exT` written as a JSON string of as many `a` as their position,
+    read back by length + lookup (a codec that is right on the records of this object and on nothing else) -/
+example : ∃ (toJ : Record → J Empty) (dec : List Nat → Option Record),
+    (∀ x ∈ save exT, dec (J.emit (Empty.elim : Empty → List Nat) (toJ x)) = some x) ∧
+    (loadFile (κ := TKey) dec (saveFile (fun x => J.emit (Empty.elim : Empty → List Nat) (toJ x)) exT)).map Content.erased
+      = some exT.erased := by
+  let toJ : Record → J Empty := fun x => J.str (List.replicate ((save exT).idxOf x) 97)
+  let dec : List Nat → Option Record := fun l => (save exT)[l.length - 2]?
+  have hd : ∀ x ∈ save exT, dec (J.emit (Empty.elim : Empty → List Nat) (toJ x)) = some x := by decide
+  exact ⟨toJ, dec, hd, C06_json_file_roundtrip Empty.elim (fun f => f.elim) (fun f => f.elim) toJ dec exT (by decide) hd⟩
+
+/-! ## Extension round: the `.hgr` reader from the characters of the file (`Model/C06HgrText.lean`)
+
+`strip`, `split(" ")`, `int` of `load_hypergraph(.hgr)` on character codes; a valid data line = decimal numbers separated by
+one blank (`dataLine`), a valid file = such lines each ended by LF (`unlines`). -/
+open C06.HgrText
+
+/-- a data line is read as exactly the numbers written on it (any number of tokens, numbers of any size) -/
+theorem C06_hgr_lex_line (t : Nat) (ts : List Nat) : lexLine (dataLine (t :: ts)) = some (.toks (t :: ts)) :=
+  lexLine_dataLine t ts
+
+/-- blank lines, white-space lines and `%` comments are skipped; surrounding white space (CR of a CRLF file, TAB, NBSP) and
+    repeated blanks do not matter; a TAB between two numbers is no separator (`int("1\t2")` raises) -/
+theorem C06_hgr_lex_witness :
+    lexLine [] = some .skip ∧ lexLine [32, 9, 13] = some .skip ∧ lexLine [32, 37, 32, 49, 32, 50] = some .skip ∧
+    lexLine [160, 9, 49, 50, 32, 32, 48, 55, 32, 13] = some (.toks [12, 7]) ∧ lexLine [49, 9, 50] = none := by decide
+
+/-- a whole valid file: from its characters the reader sees exactly the rows written -/
+theorem C06_hgr_text (rows : List (List Nat)) (h : ∀ r ∈ rows, r ≠ []) :
+    parseHgrText (unlines (rows.map dataLine)) = parseHgr (rows.map Line.toks) :=
+  parseHgrText_rows rows h
+
+/-- `C06_hgr` from the characters of the file: the hypergraph built from the text `unlines (rows.map dataLine)` has exactly
+    the listed node sets with the listed weights -/
+theorem C06_hgr_text_content (rows : List (List Nat)) (h : ∀ r ∈ rows, r ≠ []) (s : HgrSt)
+    (hs : hgrScan {} (rows.map Line.toks) = some s) (hd : hgrWeighted s.mode = true → (s.es.map sort).Nodup) :
+    ∃ c, parseHgrText (unlines (rows.map dataLine)) = some c ∧ WF c ∧ c.weighted = hgrWeighted s.mode ∧
+      (∀ k, k ∈ AL.keys c.edges ↔ ∃ e ∈ s.es, k = ⟨sort e⟩) ∧
+      (∀ n, n ∈ AL.keys c.nodes ↔ ∃ e ∈ s.es, n ∈ e) ∧
+      (hgrWeighted s.mode = true →
+        ∀ p ∈ s.es.zip s.ws, AL.get? c.edges ⟨sort p.1⟩ = some (unit * (p.2 : Int), [])) ∧
+      (hgrWeighted s.mode = false → ∀ e ∈ c.edges, e.2 = (unit, [])) := by
+  rw [C06_hgr_text rows h]
+  exact C06_hgr (rows.map Line.toks) s hs hd
+
+/-- `2 3` LF `% x` LF LF `1 2` LF -/
+example : lexText [50, 32, 51, 10, 37, 32, 120, 10, 10, 49, 32, 50, 10] =
+    some [.toks [2, 3], .skip, .skip, .toks [1, 2], .skip] := by decide
